@@ -245,7 +245,7 @@ impl Database {
 
         let predicate = delete
             .where_clause
-            .map(|expr| CompiledPredicate::new(expr, column_map));
+            .map(|expr| CompiledPredicate::with_params(expr, column_map, params, 0));
 
         let mut file_manager_guard = self.shared.file_manager.write();
         let file_manager = file_manager_guard.as_mut().unwrap();
